@@ -449,6 +449,75 @@ func (m *Model) fieldOwners() map[*types.Var]string {
 			}
 		}
 	}
+	// fields regrouped into a nested (named or embedded) struct that is used by exactly one owner: a field of the
+	// nested struct keeps the key of the owner's pinned field of the same name and type, if the owner no longer
+	// declares it
+	{
+		type use struct {
+			owner string
+			st    *types.Struct
+		}
+		uses := map[*types.TypeName][]use{}
+		structOf := func(name string) (*types.TypeName, *types.Struct) {
+			tn, ok := sc.Lookup(name).(*types.TypeName)
+			if !ok || tn.IsAlias() {
+				return nil, nil
+			}
+			st, _ := tn.Type().Underlying().(*types.Struct)
+			return tn, st
+		}
+		for _, name := range sc.Names() {
+			_, st := structOf(name)
+			if st == nil {
+				continue
+			}
+			for i := 0; i < st.NumFields(); i++ {
+				ft := st.Field(i).Type()
+				if p, ok := ft.(*types.Pointer); ok {
+					ft = p.Elem()
+				}
+				if n, ok := ft.(*types.Named); ok && n.Obj().Pkg() == pkg {
+					if _, ok := n.Underlying().(*types.Struct); ok {
+						uses[n.Obj()] = append(uses[n.Obj()], use{name, st})
+					}
+				}
+			}
+		}
+		for tn, us := range uses {
+			if len(us) != 1 {
+				continue
+			}
+			pinnedOwner := false
+			for k := range PinnedFieldTypes {
+				if strings.HasPrefix(k, tn.Name()+".") {
+					pinnedOwner = true
+					break
+				}
+			}
+			if pinnedOwner {
+				continue
+			}
+			nst := tn.Type().Underlying().(*types.Struct)
+			declared := map[string]bool{}
+			for i := 0; i < us[0].st.NumFields(); i++ {
+				declared[us[0].st.Field(i).Name()] = true
+			}
+			for i := 0; i < nst.NumFields(); i++ {
+				f := nst.Field(i)
+				key := us[0].owner + "." + f.Name()
+				pv, pinned := PinnedFieldTypes[key]
+				if !pinned || declared[f.Name()] {
+					continue
+				}
+				if j := strings.IndexByte(pv, ':'); j >= 0 {
+					pv = pv[j+1:]
+				}
+				if pv == types.TypeString(f.Type(), qual) {
+					c[f.Origin()] = key
+				}
+			}
+		}
+	}
 	if m.Prog.Stats != nil {
 		ssc := m.Prog.Stats.Types.Scope()
 		for _, name := range ssc.Names() {
